@@ -375,16 +375,22 @@ LATE = 1.5         # seconds after the signal at which the client sends what it 
 KEEPALIVE = 8
 
 
-def scenario(cls, phase, app, sig, graceful=4, bind="unix"):
-    """app: 'finish' (needs 1.2 s), 'overrun' (graceful + 3 s), 'never' (60 s)"""
+def scenario(cls, phase, app, sig, graceful=4, bind="unix", saturated=False):
+    """app: 'finish' (needs 1.2 s), 'overrun' (graceful + 3 s), 'never' (60 s); saturated: worker_connections = 1 and one more
+    client waiting for a slot when the signal arrives (gevent / eventlet: the acceptor is inside pool.spawn, not in accept)"""
     d = {"finish": 2.6, "overrun": graceful + 3.0, "never": 60.0}[app]
-    return {"cls": cls, "phase": phase, "app": app, "d": d, "sig": sig, "graceful": graceful, "bind": bind}
+    scn = {"cls": cls, "phase": phase, "app": app, "d": d, "sig": sig, "graceful": graceful, "bind": bind}
+    if saturated:
+        scn["saturated"] = True
+    return scn
 
 
 def real_case(scn):
     """-> observation dict"""
-    srv = R.Server(worker_class=scn["cls"], workers=1, graceful=scn["graceful"], bind=scn["bind"], keepalive=KEEPALIVE)
+    srv = R.Server(worker_class=scn["cls"], workers=1, graceful=scn["graceful"], bind=scn["bind"], keepalive=KEEPALIVE,
+                   extra=({"worker_connections": 1} if scn.get("saturated") else None))
     obs = {"scn": scn}
+    extra_client = None
     try:
         srv.start()
         worker0 = srv.children()
@@ -412,6 +418,11 @@ def real_case(scn):
             obs["first"] = {"status": r1["status"], "complete": r1["complete"]}
             c.buf = b""
             later = R.Client.request(d=0)
+        if scn.get("saturated"):
+            # the worker's only slot is taken by c: one more client connects and sends a request that has to wait for a slot
+            extra_client = R.Client(srv, timeout=5).connect()
+            extra_client.send(R.Client.request(d=0))
+            time.sleep(0.3)
         box = {}
 
         def waiter():
@@ -447,6 +458,8 @@ def real_case(scn):
         obs["client_error"] = c.err
         obs["done"] = r["status"] == 200 and bool(r["complete"])
         c.close()
+        if extra_client is not None:
+            extra_client.close()
     except Exception as e:                       # a harness-level problem, reported as such
         obs["harness_error"] = "%s: %s" % (type(e).__name__, e)
         obs["log"] = srv.read_log()[-1500:]
@@ -541,6 +554,8 @@ QUICK_REAL = [
 def real_scenarios(ctx):
     if ctx.quick():
         scns = [scenario(c, p, a, s, graceful=4, bind=("unix" if i % 4 else "tcp")) for i, (c, p, a, s) in enumerate(QUICK_REAL)]
+        scns.append(scenario("eventlet", "app", "finish", "TERM", graceful=4, bind="unix", saturated=True))
+        scns.append(scenario("gevent", "app", "finish", "TERM", graceful=4, bind="tcp", saturated=True))
         # two more, chosen by the seed
         for _ in range(2):
             scns.append(scenario(ctx.rng.choice(list(CLS_COQ)), ctx.rng.choice(list(PHASE_COQ)), ctx.rng.choice(["finish", "finish", "overrun"]),
@@ -556,6 +571,9 @@ def real_scenarios(ctx):
                     if s == "INT" and a == "overrun":
                         continue
                     scns.append(scenario(c, p, a, s, graceful=4, bind=("tcp" if (len(scns) % 3 == 0) else "unix")))
+    for c in ("gevent", "eventlet", "gthread"):
+        for s in ("TERM", "QUIT"):
+            scns.append(scenario(c, "app", "finish", s, graceful=4, bind="unix", saturated=True))
     return scns
 
 
